@@ -313,7 +313,7 @@ func genCoreCase(r *hx.Rand, abstract, wild bool, kind string) (coreCase, bool) 
 	if kind == "mutation" && cf.Merged.Schema.Mutation == nil {
 		kind = "query"
 	}
-	oo.IDVar = true
+	oo.IDVar, oo.VarReuse = true, true
 	op := fed.GenOp(r, cf.Merged.Schema, cf.F.Data, kind, oo)
 	if op == nil {
 		return coreCase{}, false
